@@ -110,6 +110,12 @@ def suite_wiring(ctx, case):
         s.diameter[s.types[0]] = sd['diam'][0] + sd['dom'][1]
         with warnings.catch_warnings():
             warnings.simplefilter('ignore'); p2 = s.createPRISM()
+        # ... and the second object is wired from the System as it is NOW
+        import copy as _c
+        sd2 = _c.deepcopy(sd); sd2['kT'] = sd['kT'] * 2.0; sd2['diam'][0] = sd['diam'][0] + sd['dom'][1]
+        sd2['sigma_override'] = [e for e in sd.get('sigma_override', []) if 0 not in (e[0], e[1])]
+        ok2, why2 = wiring_ok(p2, sd2)
+        ctx.pred('wiring', case, ok2, 'a second PRISM object created after kT and a diameter were changed is not wired from the current System: ' + why2, key='C01:wiring')
         same = G.wiring_tok(p) == before
         ctx.pred('wiring', case, same, 'creating a second PRISM object from the same System (after changing kT and a diameter) changed the first object', key='C01:wiring')
         ctx.corr('wiring', case, ctx.drv.ask('prism.wiring'), G.wiring_tok(p), rtol=1e-11, atols=G.wiring_atols(before, sd, p.sys.domain.k), what='first PRISM object after a second one was created')
